@@ -2,12 +2,41 @@
  * environment, replaced by malloc/free of exactly the requested size (so any access past 2*capacity is
  * reported by CBMC's bounds checks and any access after free by its deallocated-object check). */
 #include "vll_rt.h"
-static void* qalloc(uint64_t size){ void* p = malloc(size);
+/* -DVLL_QBLOCK=<bytes>: every storage block has this CONCRETE size (symbolic allocation sizes make CBMC's heap
+ * encoding explode); requests must fit (asserted).  Accesses past 2*capacity are then checked by the harness. */
+#if defined(VLL_QBLOCK) && defined(VLL_QPOOL)
+/* -DVLL_QPOOL=<n>: storage blocks come from a static pool (no dynamic objects at all: CBMC's merged heap encoding
+ * of many candidate malloc objects runs out of memory); a freed block is poisoned so that any later use of its
+ * contents is visible; pool exhaustion ends the path (stated bound on the number of nodes). */
+static unsigned char q_pool0[VLL_QBLOCK], q_pool1[VLL_QBLOCK], q_pool2[VLL_QBLOCK], q_pool3[VLL_QBLOCK]; static uint32_t q_used;
+static void* qalloc(uint64_t size){
+  vassert_at(size <= VLL_QBLOCK, 9100);
+  vassume(q_used < VLL_QPOOL && q_used < 4);
+  uint32_t i = q_used++;
+  return i == 0 ? q_pool0 : i == 1 ? q_pool1 : i == 2 ? q_pool2 : q_pool3;
+}
+static void qfree(void* p){ vra_forget(p, VLL_QBLOCK); for (uint32_t i = 0; i < VLL_QBLOCK; i++) ((unsigned char*)p)[i] = 0xDD; }
+#define VLL_QFREE_POOL 1
+#else
+static void* qalloc(uint64_t size){
+#ifdef VLL_QBLOCK
+  vassert_at(size <= VLL_QBLOCK, 9100); void* p = malloc(VLL_QBLOCK);
+#else
+  void* p = malloc(size);
+#endif
 #ifdef __CPROVER__
   __CPROVER_assume(p != 0);
 #endif
   return p; }
+#endif
+#ifdef VLL_QFREE_POOL
+#define VLL_QFREE(p) qfree(p)
+#elif defined(__CPROVER__)
+#define VLL_QFREE(p) do { vra_forget(p, 0); free(p); } while (0)
+#else
+#define VLL_QFREE(p) ((void)(p))
+#endif
 void* _ZN5quill2v96detail20BoundedSPSCQueueImplIhE14_alloc_alignedEmmNS0_15HugePagesPolicyE(uint64_t size, uint64_t al, uint32_t pol){ return qalloc(size); }
 void* _ZN5quill2v96detail20BoundedSPSCQueueImplImE14_alloc_alignedEmmNS0_15HugePagesPolicyE(uint64_t size, uint64_t al, uint32_t pol){ return qalloc(size); }
-void _ZN5quill2v96detail20BoundedSPSCQueueImplIhE13_free_alignedEPv(void* p){ vra_forget(p, 0); free(p); }
-void _ZN5quill2v96detail20BoundedSPSCQueueImplImE13_free_alignedEPv(void* p){ vra_forget(p, 0); free(p); }
+void _ZN5quill2v96detail20BoundedSPSCQueueImplIhE13_free_alignedEPv(void* p){ VLL_QFREE(p); }
+void _ZN5quill2v96detail20BoundedSPSCQueueImplImE13_free_alignedEPv(void* p){ VLL_QFREE(p); }
